@@ -342,7 +342,8 @@ Definition run_st (op : bytes) (args0 : list bytes) : bytes :=
 
 (* ---- request ids / constructors ----
    id.hist <codec> <nctx> <call> <call> ...   call = <ctx>~<ctor>~<cmd>~<opts>
-   ctor: q NewRequest, Q MustNewRequest, p<code> NewResponse, P<code> MustNewResponse, u NewPush, U MustNewPush
+   ctor: q NewRequest, Q MustNewRequest, p<code> NewResponse, P<code> MustNewResponse, u NewPush, U MustNewPush,
+         f NewRequest whose body cannot be marshalled (the id is drawn, then the call fails: prints ERR)
    opts: - or comma-joined: v<nonce>.<sighex>  r<id>  s<code>
    output per call: <type> <cmd> <rid> <status> <verify> <nonce> <sig> joined by " ; " *)
 Definition parse_opt (o : bytes) : option popt :=
@@ -362,7 +363,7 @@ Definition parse_opts (b : bytes) : option (list popt) :=
 Definition parse_ctor (b : bytes) : option ctor :=
   match b with
   | k :: rest =>
-      if byte_eqb k "q"%byte then Some CRequest else if byte_eqb k "Q"%byte then Some CMustRequest
+      if byte_eqb k "q"%byte || byte_eqb k "f"%byte then Some CRequest else if byte_eqb k "Q"%byte then Some CMustRequest
       else if byte_eqb k "u"%byte then Some CPush else if byte_eqb k "U"%byte then Some CMustPush
       else if byte_eqb k "p"%byte then option_map CResponse (undec rest)
       else if byte_eqb k "P"%byte then option_map CMustResponse (undec rest)
@@ -376,6 +377,8 @@ Definition parse_call (b : bytes) : option call :=
         obind (parse_opts opts) (fun opts => Some (Ids.mkCall (N.to_nat c) ct cmd opts)))))
   | _ => None
   end.
+Definition call_fails (b : bytes) : bool :=
+  match split_on "~"%byte b with [_; ct; _; _] => bytes_eqb ct (str "f") | _ => false end.
 Definition meta_id_s (m : meta) : bytes :=
   join sp [dec (ptype_n (m_type m)); dec (m_cmd m); dec (m_rid m); dec (m_status m); bool_s (m_verify m); dec (m_nonce m); hex (m_sig m)].
 Definition run_id (op : bytes) (args : list bytes) : bytes :=
@@ -383,7 +386,9 @@ Definition run_id (op : bytes) (args : list bytes) : bytes :=
     match args with
     | codec :: nctx :: calls =>
         match undec codec, undec nctx, omap_all parse_call calls with
-        | Some codec, Some n, Some cs => join (str " ; ") (map meta_id_s (run_calls codec (repeat 0 (N.to_nat n)) cs))
+        | Some codec, Some n, Some cs =>
+            join (str " ; ") (map (fun fm : bool * meta => if fst fm then str "ERR" else meta_id_s (snd fm))
+                                  (combine (map call_fails calls) (run_calls codec (repeat 0 (N.to_nat n)) cs)))
         | _, _, _ => bad end
     | _ => bad end
   else bad.
